@@ -146,7 +146,11 @@ __CPROVER_ensures(nv_gcount <= nv_ver_counter && nv_ver_counter < 2000000000u &&
 #define NV_ELLIPSOID_C03 \
 __CPROVER_ensures(NV_RET.m_status == NVE_solver_status_converged ==> ( \
      (nv_dot_rec.res < 2.220446049250313e-16 && nv_dot_rec.at == nv_ver_counter) \
-  || (nv_sqrt_rec.res < nv_epsilon && NV_SAME(nv_sqrt_rec.arg, nv_dot_rec.res) && nv_sqrt_rec.at == nv_ver_counter && nv_dot_rec.at + 1 == nv_ver_counter)))
+  || (nv_sqrt_rec.res < nv_epsilon && NV_SAME(nv_sqrt_rec.arg, nv_dot_rec.res) && nv_sqrt_rec.at == nv_ver_counter && nv_dot_rec.at + 1 == nv_ver_counter))) \
+/* C03 "the ellipsoid method always reports converged" (exit protocol): the loop is left without a decision of solver_t::done (status \
+ * still max_iters) only because the evaluation budget is exhausted; in particular the degenerate-ellipsoid exit (g'Hg < machine \
+ * epsilon) reports converged (or failed for an invalid state), never max_iters */ \
+__CPROVER_ensures(NV_RET.m_status == NVE_solver_status_max_iters ==> nv_ver_counter + nv_gcount >= (uint64_t)nv_max_evals)
 #else
 #define NV_ELLIPSOID_C03
 #endif
